@@ -124,6 +124,10 @@ EXTRA["C02"] = EXTRA.get("C02", []) + _BURST(True)
 for _p in ("C01", "C03", "C05", "C11"):
     EXTRA[_p] = EXTRA.get(_p, []) + _BURST(False)
 
+_SBURST = [("srv", ["--scripts=120", "--len=120", "--burst=1"], ["--scripts=5000", "--len=140", "--burst=1"], "srv-burst")]
+for _p in ("C12", "C08", "C11", "C14"):
+    EXTRA[_p] = EXTRA.get(_p, []) + _SBURST
+
 # sim transport v2: fault countdowns ("fail the k-th call of a kind": `fault-skip n` before `fault <kind>`) and sinks that do
 # not wake their owner when the owner's own flush restores readiness (`self-wake 0`; client, and server without a limit)
 for _p, _sides in (("C09", ("cli", "srv")), ("C14", ("cli", "srv")), ("C10", ("cli", "srv")), ("C03", ("cli",)), ("C08", ("srv",))):
@@ -199,7 +203,18 @@ def sig_wheel_lag(why, lines):
     return False
 
 
+def sig_wheel_lag_late(why, lines):
+    """A deadline not enforced ("still pending although the dispatch ran …" / "still running …") in a script whose
+    virtual clock has reached 2^35 ms: tokio-util's wheel files an entry more than a rotation ahead of its lagging
+    `elapsed` into the slot it is currently in and then overlooks earlier entries."""
+    if "still pending although the dispatch ran" not in why and "still running at" not in why:
+        return False
+    now = sum(int(m.group(1)) for l in lines for m in [re.match(r"^op advance (\d+)", l)] if m)
+    return now >= (2 ** 35) * 1_000_000
+
+
 SIGNATURES = {
+    "timer-wheel-lag-deadline-not-enforced": sig_wheel_lag_late,
     "timer-wheel-lag-after-2^35-ms": sig_wheel_lag,
     "limiter-at-limit-and-sink-not-ready": sig_limiter_stall,
     "overthrottle-after-drain-in-same-poll": sig_overthrottle,
